@@ -26,6 +26,8 @@ def run(cx):
     r6(cx)
     cx.rule("C07.R7", "K1", "outputs flow upwards whatever the ending: a reviewing parent takes over the finished child's outputs (review) and a task that ended hands its context values to its own data (next) - under no condition on how the child ended")
     r7_handover(cx)
+    cx.rule("C07.R8", "E3", "the script proxies of a step (`step1.x`, `step1.x = v`, `.data()`, `.inputs()`) resolve the node id to the NEWEST task of that node: after a back / redo the values of the abandoned round are not read back")
+    r8_step_proxy(cx)
     m = cx.m
     pa = Prov(m, "alias")
     pv = Prov(m, "value")
@@ -385,3 +387,54 @@ def r7_handover(cx):
             cx.ob("C07.R7", "review:source", ok_src, "the outputs taken over are those of the task the context still points to (the finished child), read before `ctx.set_task(self)`", c.loc)
         exact_guards(cx, "C07.R7", "%s:handover" % name, f, c.b, required, allowed, what, c.loc)
     cx.floor("C07.R7", 3)
+
+
+def r8_step_proxy(cx):
+    """Process::find_tasks / task_by_nid return the tasks of a node oldest first (sorted by start time); the proxies take the
+    last one. `first()`, `[0]`, `iter().next()` would resolve to the first round of a step that was run again."""
+    m = cx.m
+    pa = Prov(m, "alias")
+    NEWEST = re.compile(r"slice::<impl \[T\]>::last$|Vec::<T, A>::pop$|Iterator(>)?::last$|DoubleEndedIterator(>)?::next_back$|Iterator(>)?::max_by_key|slice::<impl \[T\]>::last_mut$")
+    OLDEST = re.compile(r"slice::<impl \[T\]>::first$|slice::<impl \[T\]>::first_mut$|Iterator(>)?::next$|Iterator(>)?::min_by_key|Vec::<T, A>::remove$|Vec::<T, A>::swap_remove$|slice::<impl \[T\]>::get$|Index<.*>>::index$|Iterator(>)?::nth$")
+    SRC = re.compile(r"Process::(find_tasks|task_by_nid)(::<.*>)?$")
+
+    def from_tasks(f, r, depth=0):
+        """does root r come (through derefs / iter adaptors) from a find_tasks / task_by_nid result? returns (bool, reversed?)"""
+        rev = False
+        n = 0
+        while r[0] == "call" and n < 8:
+            if SRC.search(r[1]):
+                return True, rev
+            c = Call(f, r[2])
+            if re.search(r"Iterator(>)?::rev$", r[1]):
+                rev = not rev
+            if not c.args:
+                break
+            r = pa.root(f, c.args[0])
+            n += 1
+        if r[0] == "local":
+            for d in f.defs().get(r[1], []):
+                if d[2] == "call" and SRC.search(d[3][1].get("q") or ""):
+                    return True, rev
+        return False, rev
+
+    n = 0
+    for name in ("get_step_value", "set_step_value", "get_inputs", "get_data"):
+        fs = [g for q, g in m.fns.items() if re.search(r"^acts::env::moudle::step::step::%s(::\{closure#\d+\})*$" % name, q)]
+        sel = []
+        for g in fs:
+            for c in g.calls():
+                if (NEWEST.search(c.q) or OLDEST.search(c.q)) and c.args:
+                    ok_src, rev = from_tasks(g, pa.root(g, c.args[0]))
+                    if ok_src:
+                        newest = bool(NEWEST.search(c.q)) != rev
+                        sel.append((c, newest))
+        if not sel:
+            cx.undecide("C07.R8", "`%s`: no selection of one task out of the tasks of the node was recognised" % name)
+            continue
+        n += 1
+        bad = [c for c, newest in sel if not newest]
+        cx.ob("C07.R8", "%s:newest" % name, not bad,
+              "`%s` works on the newest task of the step node (`.last()` of the tasks found for the node id)%s" % (
+                  name, "" if not bad else " - but it takes `%s`: the oldest instance, i.e. the round a back / redo abandoned" % short_name(bad[0].q)), (bad or [sel[0][0]])[0].loc)
+    cx.floor("C07.R8", 4)
